@@ -875,6 +875,11 @@ func (p *InlineParser) parseEndBracket(state *inlineState, start int) (end int) 
 			End:   label.span.End,
 		}
 		p.finishLink(state, kind, openDelimIndex)
+		// The label may have continued onto a later line:
+		// advance to the node that holds its closing bracket.
+		if i := nodeIndexForPosition(state.unparsed[state.unparsedPos:], label.span.End-1); i >= 0 {
+			state.unparsedPos += i
+		}
 		return linkNode.span.End
 	default:
 		// Shortcut reference link.
